@@ -564,6 +564,10 @@ func runC03(c *Check) {
 	c.ruleParentFetchedPerInput("R18")
 	c.ruleHandOverBlocks("R19")
 	c.ruleSpentOutputIsParentsOutput("R21")
+	c.ruleUnconfirmedSetKeepsEveryEntry("R22")
+	c.ruleRelevanceScansEverything("R23", "R24")
+	c.ruleAlreadyConfirmedNeedsBlockInChain("R25")
+	c.whoMayCall("R26", "storage.SaveTxState", map[string]string{"spynode.(*Node).processUnconfirmedTx": "delivery of an unconfirmed tx and its conflicts", "spynode.(*Node).ProcessBlock": "confirmations and cancellations", "spynode.(*Node).provideBlock": "refeed", "spynode.(*Node).checkTxDelays": "safe after the delay"}, 6)
 	c.ruleWiring("R20", c.constructorsIn("handlers", "spynode"))
 	c.ruleFlagOnlyFromCall("R14", "spynode.(*Node).ProcessBlock", "(*state.MemPool).RemoveTransaction", "in-mempool-flag",
 		"the in-mempool classification of a block tx is constant true where the mempool is not consulted (node not ready): every tx of a block processed before the node is ready is skipped as already seen, so relevant txs in those blocks are never delivered")
